@@ -39,11 +39,12 @@ Definition dirent := (N * list N)%type.
 (* self._children[directory.id] = {c.target for c in directory.entries}
    (a dict: a later directory with the same id overrides an earlier one);
    _children.get(current, set()) *)
-Definition children_of (dirs : list dirent) (d : N) : list N :=
-  match find (fun p => N.eqb d (fst p)) (rev dirs) with
-  | Some p => snd p
-  | None => []
+Fixpoint last_children (d : N) (dirs : list dirent) (acc : list N) : list N :=
+  match dirs with
+  | [] => acc
+  | p :: dirs' => last_children d dirs' (if N.eqb d (fst p) then snd p else acc)
   end.
+Definition children_of (dirs : list dirent) (d : N) : list N := last_children d dirs [].
 
 (* self._parents.setdefault(child.target, set()).add(directory.id);
    _parents.get(current, set()) *)
